@@ -1,5 +1,5 @@
-(* Model of the path event loop: internal/core/path.go (publisher paths and static-source paths that are
-   not alwaysAvailable, no redirect/fallback, no recording), with the hook closures of
+(* Model of the path event loop: internal/core/path.go (publisher paths and static-source paths, with or
+   without alwaysAvailable; no redirect/fallback, no recording), with the hook closures of
    internal/hooks/on_available.go, on_online.go, on_demand.go and the start/stop protocol of
    internal/staticsources/handler.go.  Executable; no proofs here.
 
@@ -26,6 +26,12 @@ Definition E_TIMEOUT := 3.       (* source of path has timed out *)
 Definition E_TERMINATED := 4.    (* terminated *)
 Definition E_MAXREADERS := 5.    (* maximum reader count reached *)
 Definition E_NOTPUBLISHER := 6.  (* 'source' is not 'publisher' *)
+Definition E_INCOMPAT := 7.      (* SubStream.Initialize: mediasAreCompatible failed ("wants to publish ..., but stream expects ...") *)
+
+(* which sub-stream is the stream's current one (internal/stream: Stream.subStream, the only one whose
+   WriteUnit reaches readers): none (no stream), the offline sub-stream of an alwaysAvailable stream,
+   the one handed to publisher p by its last successful AddPublisher, the static source's *)
+Inductive sub := SNone | SOffline | SPub (p : Z) | SStatic.
 
 Inductive pevent :=
 | EAnswer (q : Z) (a : ans)      (* a value sent on the request's Res channel *)
@@ -46,7 +52,8 @@ Inductive pevent :=
 
 Inductive pop :=
 | Describe (q : Z)
-| AddPublisher (q p : Z)
+| AddPublisher (q p : Z) (ok : bool)   (* ok: the publisher's tracks are compatible with the tracks of an
+                                         alwaysAvailable stream (SubStream.Initialize succeeds); unused otherwise *)
 | RemovePublisher (p : Z)
 | AddReader (q r : Z)
 | RemoveReader (r : Z)
@@ -64,7 +71,8 @@ Record pconf := mkConf {
   c_maxr : Z;           (* MaxReaders *)
   c_hAvail : bool; c_hUnavail : bool;
   c_hOnline : bool; c_hOffline : bool;
-  c_hDemand : bool; c_hUnDemand : bool
+  c_hDemand : bool; c_hUnDemand : bool;
+  c_aa : bool           (* AlwaysAvailable *)
 }.
 
 Definition od_static (cf : pconf) : bool := c_static cf && c_sod cf.   (* HasOnDemandStaticSource *)
@@ -99,45 +107,48 @@ Record pstate := mkState {
   s_pubCloseT : bool;
   s_hUnDemand : bool;
   s_hUnavail : bool;
-  s_hOffline : bool
+  s_hOffline : bool;
+  s_sub : sub           (* pa.stream.subStream, by identity *)
 }.
 
 Definition set_closed (v : bool) (s : pstate) : pstate :=
-  mkState (s_conf s) v (s_source s) (s_stream s) (s_nextgen s) (s_readers s) (s_dhold s) (s_rhold s) (s_ssState s) (s_ssReadyT s) (s_ssCloseT s) (s_ssRunning s) (s_instReady s) (s_pubState s) (s_pubReadyT s) (s_pubCloseT s) (s_hUnDemand s) (s_hUnavail s) (s_hOffline s).
+  mkState (s_conf s) v (s_source s) (s_stream s) (s_nextgen s) (s_readers s) (s_dhold s) (s_rhold s) (s_ssState s) (s_ssReadyT s) (s_ssCloseT s) (s_ssRunning s) (s_instReady s) (s_pubState s) (s_pubReadyT s) (s_pubCloseT s) (s_hUnDemand s) (s_hUnavail s) (s_hOffline s) (s_sub s).
 Definition set_source (v : option Z) (s : pstate) : pstate :=
-  mkState (s_conf s) (s_closed s) v (s_stream s) (s_nextgen s) (s_readers s) (s_dhold s) (s_rhold s) (s_ssState s) (s_ssReadyT s) (s_ssCloseT s) (s_ssRunning s) (s_instReady s) (s_pubState s) (s_pubReadyT s) (s_pubCloseT s) (s_hUnDemand s) (s_hUnavail s) (s_hOffline s).
+  mkState (s_conf s) (s_closed s) v (s_stream s) (s_nextgen s) (s_readers s) (s_dhold s) (s_rhold s) (s_ssState s) (s_ssReadyT s) (s_ssCloseT s) (s_ssRunning s) (s_instReady s) (s_pubState s) (s_pubReadyT s) (s_pubCloseT s) (s_hUnDemand s) (s_hUnavail s) (s_hOffline s) (s_sub s).
 Definition set_stream (v : option Z) (s : pstate) : pstate :=
-  mkState (s_conf s) (s_closed s) (s_source s) v (s_nextgen s) (s_readers s) (s_dhold s) (s_rhold s) (s_ssState s) (s_ssReadyT s) (s_ssCloseT s) (s_ssRunning s) (s_instReady s) (s_pubState s) (s_pubReadyT s) (s_pubCloseT s) (s_hUnDemand s) (s_hUnavail s) (s_hOffline s).
+  mkState (s_conf s) (s_closed s) (s_source s) v (s_nextgen s) (s_readers s) (s_dhold s) (s_rhold s) (s_ssState s) (s_ssReadyT s) (s_ssCloseT s) (s_ssRunning s) (s_instReady s) (s_pubState s) (s_pubReadyT s) (s_pubCloseT s) (s_hUnDemand s) (s_hUnavail s) (s_hOffline s) (s_sub s).
 Definition set_nextgen (v : Z) (s : pstate) : pstate :=
-  mkState (s_conf s) (s_closed s) (s_source s) (s_stream s) v (s_readers s) (s_dhold s) (s_rhold s) (s_ssState s) (s_ssReadyT s) (s_ssCloseT s) (s_ssRunning s) (s_instReady s) (s_pubState s) (s_pubReadyT s) (s_pubCloseT s) (s_hUnDemand s) (s_hUnavail s) (s_hOffline s).
+  mkState (s_conf s) (s_closed s) (s_source s) (s_stream s) v (s_readers s) (s_dhold s) (s_rhold s) (s_ssState s) (s_ssReadyT s) (s_ssCloseT s) (s_ssRunning s) (s_instReady s) (s_pubState s) (s_pubReadyT s) (s_pubCloseT s) (s_hUnDemand s) (s_hUnavail s) (s_hOffline s) (s_sub s).
 Definition set_readers (v : list Z) (s : pstate) : pstate :=
-  mkState (s_conf s) (s_closed s) (s_source s) (s_stream s) (s_nextgen s) v (s_dhold s) (s_rhold s) (s_ssState s) (s_ssReadyT s) (s_ssCloseT s) (s_ssRunning s) (s_instReady s) (s_pubState s) (s_pubReadyT s) (s_pubCloseT s) (s_hUnDemand s) (s_hUnavail s) (s_hOffline s).
+  mkState (s_conf s) (s_closed s) (s_source s) (s_stream s) (s_nextgen s) v (s_dhold s) (s_rhold s) (s_ssState s) (s_ssReadyT s) (s_ssCloseT s) (s_ssRunning s) (s_instReady s) (s_pubState s) (s_pubReadyT s) (s_pubCloseT s) (s_hUnDemand s) (s_hUnavail s) (s_hOffline s) (s_sub s).
 Definition set_dhold (v : list Z) (s : pstate) : pstate :=
-  mkState (s_conf s) (s_closed s) (s_source s) (s_stream s) (s_nextgen s) (s_readers s) v (s_rhold s) (s_ssState s) (s_ssReadyT s) (s_ssCloseT s) (s_ssRunning s) (s_instReady s) (s_pubState s) (s_pubReadyT s) (s_pubCloseT s) (s_hUnDemand s) (s_hUnavail s) (s_hOffline s).
+  mkState (s_conf s) (s_closed s) (s_source s) (s_stream s) (s_nextgen s) (s_readers s) v (s_rhold s) (s_ssState s) (s_ssReadyT s) (s_ssCloseT s) (s_ssRunning s) (s_instReady s) (s_pubState s) (s_pubReadyT s) (s_pubCloseT s) (s_hUnDemand s) (s_hUnavail s) (s_hOffline s) (s_sub s).
 Definition set_rhold (v : list (Z * Z)) (s : pstate) : pstate :=
-  mkState (s_conf s) (s_closed s) (s_source s) (s_stream s) (s_nextgen s) (s_readers s) (s_dhold s) v (s_ssState s) (s_ssReadyT s) (s_ssCloseT s) (s_ssRunning s) (s_instReady s) (s_pubState s) (s_pubReadyT s) (s_pubCloseT s) (s_hUnDemand s) (s_hUnavail s) (s_hOffline s).
+  mkState (s_conf s) (s_closed s) (s_source s) (s_stream s) (s_nextgen s) (s_readers s) (s_dhold s) v (s_ssState s) (s_ssReadyT s) (s_ssCloseT s) (s_ssRunning s) (s_instReady s) (s_pubState s) (s_pubReadyT s) (s_pubCloseT s) (s_hUnDemand s) (s_hUnavail s) (s_hOffline s) (s_sub s).
 Definition set_ssState (v : ods) (s : pstate) : pstate :=
-  mkState (s_conf s) (s_closed s) (s_source s) (s_stream s) (s_nextgen s) (s_readers s) (s_dhold s) (s_rhold s) v (s_ssReadyT s) (s_ssCloseT s) (s_ssRunning s) (s_instReady s) (s_pubState s) (s_pubReadyT s) (s_pubCloseT s) (s_hUnDemand s) (s_hUnavail s) (s_hOffline s).
+  mkState (s_conf s) (s_closed s) (s_source s) (s_stream s) (s_nextgen s) (s_readers s) (s_dhold s) (s_rhold s) v (s_ssReadyT s) (s_ssCloseT s) (s_ssRunning s) (s_instReady s) (s_pubState s) (s_pubReadyT s) (s_pubCloseT s) (s_hUnDemand s) (s_hUnavail s) (s_hOffline s) (s_sub s).
 Definition set_ssReadyT (v : bool) (s : pstate) : pstate :=
-  mkState (s_conf s) (s_closed s) (s_source s) (s_stream s) (s_nextgen s) (s_readers s) (s_dhold s) (s_rhold s) (s_ssState s) v (s_ssCloseT s) (s_ssRunning s) (s_instReady s) (s_pubState s) (s_pubReadyT s) (s_pubCloseT s) (s_hUnDemand s) (s_hUnavail s) (s_hOffline s).
+  mkState (s_conf s) (s_closed s) (s_source s) (s_stream s) (s_nextgen s) (s_readers s) (s_dhold s) (s_rhold s) (s_ssState s) v (s_ssCloseT s) (s_ssRunning s) (s_instReady s) (s_pubState s) (s_pubReadyT s) (s_pubCloseT s) (s_hUnDemand s) (s_hUnavail s) (s_hOffline s) (s_sub s).
 Definition set_ssCloseT (v : bool) (s : pstate) : pstate :=
-  mkState (s_conf s) (s_closed s) (s_source s) (s_stream s) (s_nextgen s) (s_readers s) (s_dhold s) (s_rhold s) (s_ssState s) (s_ssReadyT s) v (s_ssRunning s) (s_instReady s) (s_pubState s) (s_pubReadyT s) (s_pubCloseT s) (s_hUnDemand s) (s_hUnavail s) (s_hOffline s).
+  mkState (s_conf s) (s_closed s) (s_source s) (s_stream s) (s_nextgen s) (s_readers s) (s_dhold s) (s_rhold s) (s_ssState s) (s_ssReadyT s) v (s_ssRunning s) (s_instReady s) (s_pubState s) (s_pubReadyT s) (s_pubCloseT s) (s_hUnDemand s) (s_hUnavail s) (s_hOffline s) (s_sub s).
 Definition set_ssRunning (v : bool) (s : pstate) : pstate :=
-  mkState (s_conf s) (s_closed s) (s_source s) (s_stream s) (s_nextgen s) (s_readers s) (s_dhold s) (s_rhold s) (s_ssState s) (s_ssReadyT s) (s_ssCloseT s) v (s_instReady s) (s_pubState s) (s_pubReadyT s) (s_pubCloseT s) (s_hUnDemand s) (s_hUnavail s) (s_hOffline s).
+  mkState (s_conf s) (s_closed s) (s_source s) (s_stream s) (s_nextgen s) (s_readers s) (s_dhold s) (s_rhold s) (s_ssState s) (s_ssReadyT s) (s_ssCloseT s) v (s_instReady s) (s_pubState s) (s_pubReadyT s) (s_pubCloseT s) (s_hUnDemand s) (s_hUnavail s) (s_hOffline s) (s_sub s).
 Definition set_instReady (v : bool) (s : pstate) : pstate :=
-  mkState (s_conf s) (s_closed s) (s_source s) (s_stream s) (s_nextgen s) (s_readers s) (s_dhold s) (s_rhold s) (s_ssState s) (s_ssReadyT s) (s_ssCloseT s) (s_ssRunning s) v (s_pubState s) (s_pubReadyT s) (s_pubCloseT s) (s_hUnDemand s) (s_hUnavail s) (s_hOffline s).
+  mkState (s_conf s) (s_closed s) (s_source s) (s_stream s) (s_nextgen s) (s_readers s) (s_dhold s) (s_rhold s) (s_ssState s) (s_ssReadyT s) (s_ssCloseT s) (s_ssRunning s) v (s_pubState s) (s_pubReadyT s) (s_pubCloseT s) (s_hUnDemand s) (s_hUnavail s) (s_hOffline s) (s_sub s).
 Definition set_pubState (v : ods) (s : pstate) : pstate :=
-  mkState (s_conf s) (s_closed s) (s_source s) (s_stream s) (s_nextgen s) (s_readers s) (s_dhold s) (s_rhold s) (s_ssState s) (s_ssReadyT s) (s_ssCloseT s) (s_ssRunning s) (s_instReady s) v (s_pubReadyT s) (s_pubCloseT s) (s_hUnDemand s) (s_hUnavail s) (s_hOffline s).
+  mkState (s_conf s) (s_closed s) (s_source s) (s_stream s) (s_nextgen s) (s_readers s) (s_dhold s) (s_rhold s) (s_ssState s) (s_ssReadyT s) (s_ssCloseT s) (s_ssRunning s) (s_instReady s) v (s_pubReadyT s) (s_pubCloseT s) (s_hUnDemand s) (s_hUnavail s) (s_hOffline s) (s_sub s).
 Definition set_pubReadyT (v : bool) (s : pstate) : pstate :=
-  mkState (s_conf s) (s_closed s) (s_source s) (s_stream s) (s_nextgen s) (s_readers s) (s_dhold s) (s_rhold s) (s_ssState s) (s_ssReadyT s) (s_ssCloseT s) (s_ssRunning s) (s_instReady s) (s_pubState s) v (s_pubCloseT s) (s_hUnDemand s) (s_hUnavail s) (s_hOffline s).
+  mkState (s_conf s) (s_closed s) (s_source s) (s_stream s) (s_nextgen s) (s_readers s) (s_dhold s) (s_rhold s) (s_ssState s) (s_ssReadyT s) (s_ssCloseT s) (s_ssRunning s) (s_instReady s) (s_pubState s) v (s_pubCloseT s) (s_hUnDemand s) (s_hUnavail s) (s_hOffline s) (s_sub s).
 Definition set_pubCloseT (v : bool) (s : pstate) : pstate :=
-  mkState (s_conf s) (s_closed s) (s_source s) (s_stream s) (s_nextgen s) (s_readers s) (s_dhold s) (s_rhold s) (s_ssState s) (s_ssReadyT s) (s_ssCloseT s) (s_ssRunning s) (s_instReady s) (s_pubState s) (s_pubReadyT s) v (s_hUnDemand s) (s_hUnavail s) (s_hOffline s).
+  mkState (s_conf s) (s_closed s) (s_source s) (s_stream s) (s_nextgen s) (s_readers s) (s_dhold s) (s_rhold s) (s_ssState s) (s_ssReadyT s) (s_ssCloseT s) (s_ssRunning s) (s_instReady s) (s_pubState s) (s_pubReadyT s) v (s_hUnDemand s) (s_hUnavail s) (s_hOffline s) (s_sub s).
 Definition set_hUnDemand (v : bool) (s : pstate) : pstate :=
-  mkState (s_conf s) (s_closed s) (s_source s) (s_stream s) (s_nextgen s) (s_readers s) (s_dhold s) (s_rhold s) (s_ssState s) (s_ssReadyT s) (s_ssCloseT s) (s_ssRunning s) (s_instReady s) (s_pubState s) (s_pubReadyT s) (s_pubCloseT s) v (s_hUnavail s) (s_hOffline s).
+  mkState (s_conf s) (s_closed s) (s_source s) (s_stream s) (s_nextgen s) (s_readers s) (s_dhold s) (s_rhold s) (s_ssState s) (s_ssReadyT s) (s_ssCloseT s) (s_ssRunning s) (s_instReady s) (s_pubState s) (s_pubReadyT s) (s_pubCloseT s) v (s_hUnavail s) (s_hOffline s) (s_sub s).
 Definition set_hUnavail (v : bool) (s : pstate) : pstate :=
-  mkState (s_conf s) (s_closed s) (s_source s) (s_stream s) (s_nextgen s) (s_readers s) (s_dhold s) (s_rhold s) (s_ssState s) (s_ssReadyT s) (s_ssCloseT s) (s_ssRunning s) (s_instReady s) (s_pubState s) (s_pubReadyT s) (s_pubCloseT s) (s_hUnDemand s) v (s_hOffline s).
+  mkState (s_conf s) (s_closed s) (s_source s) (s_stream s) (s_nextgen s) (s_readers s) (s_dhold s) (s_rhold s) (s_ssState s) (s_ssReadyT s) (s_ssCloseT s) (s_ssRunning s) (s_instReady s) (s_pubState s) (s_pubReadyT s) (s_pubCloseT s) (s_hUnDemand s) v (s_hOffline s) (s_sub s).
 Definition set_hOffline (v : bool) (s : pstate) : pstate :=
-  mkState (s_conf s) (s_closed s) (s_source s) (s_stream s) (s_nextgen s) (s_readers s) (s_dhold s) (s_rhold s) (s_ssState s) (s_ssReadyT s) (s_ssCloseT s) (s_ssRunning s) (s_instReady s) (s_pubState s) (s_pubReadyT s) (s_pubCloseT s) (s_hUnDemand s) (s_hUnavail s) v.
+  mkState (s_conf s) (s_closed s) (s_source s) (s_stream s) (s_nextgen s) (s_readers s) (s_dhold s) (s_rhold s) (s_ssState s) (s_ssReadyT s) (s_ssCloseT s) (s_ssRunning s) (s_instReady s) (s_pubState s) (s_pubReadyT s) (s_pubCloseT s) (s_hUnDemand s) (s_hUnavail s) v (s_sub s).
+Definition set_sub (v : sub) (s : pstate) : pstate :=
+  mkState (s_conf s) (s_closed s) (s_source s) (s_stream s) (s_nextgen s) (s_readers s) (s_dhold s) (s_rhold s) (s_ssState s) (s_ssReadyT s) (s_ssCloseT s) (s_ssRunning s) (s_instReady s) (s_pubState s) (s_pubReadyT s) (s_pubCloseT s) (s_hUnDemand s) (s_hUnavail s) (s_hOffline s) v.
 
 (* a handler: state transformer that emits events *)
 Definition M := pstate -> pstate * list pevent.
@@ -169,12 +180,17 @@ Definition set_offline : M :=
 (* setOnline *)
 Definition set_online : M := set_offline ;; hook_open HOnline ;; modify (set_hOffline true).
 
-(* setAvailable (stream.Initialize cannot fail on the descriptions the driver uses) *)
+Definition aa (s : pstate) : bool := c_aa (s_conf s).
+Definition not_aa (s : pstate) : bool := negb (c_aa (s_conf s)).
+
+(* setAvailable (stream.Initialize cannot fail on the descriptions the driver uses).  Stream.Initialize of an
+   alwaysAvailable stream starts the offline sub-stream; otherwise the new stream has no sub-stream yet.
+   The online pair is opened here only when the path is not alwaysAvailable. *)
 Definition set_available : M :=
   fun s => let g := s_nextgen s in
-    (modify (fun s => set_stream (Some g) (set_nextgen (g + 1) s)) ;;
+    (modify (fun s => set_sub (if aa s then SOffline else SNone) (set_stream (Some g) (set_nextgen (g + 1) s))) ;;
      hook_open HAvail ;; modify (set_hUnavail true) ;;
-     set_online ;;
+     whenM not_aa set_online ;;
      emit [EPathReady g]) s.
 
 (* pa.onUnavailableHook() : the field is never reset to nil by the code *)
@@ -187,7 +203,14 @@ Definition set_not_available : M :=
   set_offline ;;
   (fun s => (set_readers [] s, map EReaderClosed (s_readers s))) ;;
   call_unavailable ;;
-  modify (set_stream None).
+  modify (fun s => set_sub SNone (set_stream None s)).
+
+(* the source of the path is gone (executeRemovePublisher, doSourceStaticSetNotReady): the stream is torn down,
+   or, on an alwaysAvailable path, the online pair is closed and the offline sub-stream takes over
+   (Stream.StartOfflineSubStream); the readers stay *)
+Definition start_offline : M := modify (set_sub SOffline).
+Definition source_gone : M :=
+  fun s => if aa s then (set_offline ;; start_offline) s else set_not_available s.
 
 (* staticsources.Handler.Start / Stop as called by the path *)
 Definition handler_start : M :=
@@ -254,7 +277,7 @@ Definition fail_on_hold (code : Z) : M :=
             map (fun qr => EAnswer (fst qr) (AErr code)) (s_rhold s)).
 
 (* executeRemovePublisher *)
-Definition execute_remove_publisher : M := set_not_available ;; modify (set_source None).
+Definition execute_remove_publisher : M := source_gone ;; modify (set_source None).
 
 (* doDescribe *)
 Definition do_describe (q : Z) : M :=
@@ -298,16 +321,23 @@ Definition do_remove_reader (r : Z) : M :=
        else if od_pub cf then whenM (fun s => ods_eqb (s_pubState s) OdReady) pub_schedule_close s
        else (s, [])).
 
-(* doAddPublisher, from setAvailable on *)
-Definition attach_publisher (q p : Z) : M :=
-  set_available ;; modify (set_source (Some p)) ;;
+(* doAddPublisher, after SubStream.Initialize succeeded: the new sub-stream is the current one *)
+Definition attach_tail (q p : Z) : M :=
+  modify (set_sub (SPub p)) ;; modify (set_source (Some p)) ;;
+  whenM aa set_online ;;
   whenM (fun s => od_pub (s_conf s) && negb (ods_eqb (s_pubState s) OdInitial))
     (modify (set_pubReadyT false) ;; pub_schedule_close) ;;
   consume_on_hold ;;
   (fun s => (s, [EAnswer q (AStream (cur_stream s))])).
 
+(* doAddPublisher, from setAvailable on.  On an alwaysAvailable path the stream exists already and
+   SubStream.Initialize fails (before touching anything) when the tracks are not compatible *)
+Definition attach_publisher (q p : Z) (ok : bool) : M :=
+  whenM not_aa set_available ;;
+  (fun s => if aa s && negb ok then (s, [EAnswer q (AErr E_INCOMPAT)]) else attach_tail q p s).
+
 (* doAddPublisher *)
-Definition do_add_publisher (q p : Z) : M :=
+Definition do_add_publisher (q p : Z) (ok : bool) : M :=
   fun s =>
     let cf := s_conf s in
     if c_static cf then (s, [EAnswer q (AErr E_NOTPUBLISHER)])
@@ -315,8 +345,8 @@ Definition do_add_publisher (q p : Z) : M :=
       match s_source s with
       | Some old =>
           if negb (c_override cf) then (s, [EAnswer q (AErr E_BUSY)])
-          else (emit [EPubClosed old] ;; execute_remove_publisher ;; attach_publisher q p) s
-      | None => attach_publisher q p s
+          else (emit [EPubClosed old] ;; execute_remove_publisher ;; attach_publisher q p ok) s
+      | None => attach_publisher q p ok s
       end.
 
 (* doRemovePublisher.  `fx` = the repair of the C19 finding is present: when the publisher of an on-demand
@@ -333,11 +363,14 @@ Definition do_remove_publisher (fx : bool) (p : Z) : M :=
     end.
 
 (* doSourceStaticSetReady, reached through Handler.SetReady only while the handler runs; the instance
-   calls SetReady once per connection attempt (instReady = it did and has not called SetNotReady since) *)
+   calls SetReady once per connection attempt (instReady = it did and has not called SetNotReady since).
+   On alwaysAvailable paths the driver's static source always offers compatible tracks (Initialize succeeds). *)
 Definition do_static_ready (q : Z) : M :=
   fun s =>
     if s_ssRunning s && negb (s_instReady s) then
-      (set_available ;;
+      (whenM not_aa set_available ;;
+       modify (set_sub SStatic) ;;
+       whenM aa set_online ;;
        whenM (fun s => od_static (s_conf s)) (modify (set_ssReadyT false) ;; ss_schedule_close) ;;
        consume_on_hold ;;
        modify (set_instReady true) ;;
@@ -348,7 +381,7 @@ Definition do_static_ready (q : Z) : M :=
 Definition do_static_not_ready : M :=
   fun s =>
     if s_ssRunning s && s_instReady s then
-      (set_not_available ;;
+      (source_gone ;;
        modify (set_instReady false) ;;
        whenM (fun s => od_static (s_conf s) && negb (ods_eqb (s_ssState s) OdInitial)) ss_stop) s
     else (s, []).
@@ -364,7 +397,8 @@ Definition disarm (t : timer) (s : pstate) : pstate :=
   | TPubReady => set_pubReadyT false s | TPubClose => set_pubCloseT false s
   end.
 
-(* doOnDemand{StaticSource,Publisher}{Ready,Close}Timer *)
+(* doOnDemand{StaticSource,Publisher}{Ready,Close}Timer (the `if AlwaysAvailable { panic }` of the static close
+   timer is unreachable: conf validation excludes sourceOnDemand with alwaysAvailable, so the timer is never armed) *)
 Definition do_timer (t : timer) : M :=
   fun s =>
     if timer_armed t s then
@@ -402,7 +436,7 @@ Definition do_close : M :=
 (* requests issued after the loop ended are answered by the wrappers (`case <-pa.ctx.Done()`) *)
 Definition closed_answer (o : pop) : list pevent :=
   match o with
-  | Describe q | AddPublisher q _ | AddReader q _ => [EAnswer q (AErr E_TERMINATED)]
+  | Describe q | AddPublisher q _ _ | AddReader q _ => [EAnswer q (AErr E_TERMINATED)]
   | _ => []
   end.
 
@@ -410,7 +444,7 @@ Definition step_gen (fx : bool) (s : pstate) (o : pop) : pstate * list pevent :=
   if s_closed s then (s, closed_answer o)
   else match o with
        | Describe q => do_describe q s
-       | AddPublisher q p => do_add_publisher q p s
+       | AddPublisher q p ok => do_add_publisher q p ok s
        | RemovePublisher p => do_remove_publisher fx p s
        | AddReader q r => do_add_reader q r s
        | RemoveReader r => do_remove_reader r s
@@ -427,12 +461,16 @@ Definition step : pstate -> pop -> pstate * list pevent := step_gen current_fix.
 (* the code before the repair; only used to state the finding *)
 Definition step_unfixed : pstate -> pop -> pstate * list pevent := step_gen false.
 
-(* initialize() + the head of run(): a static source that is not on demand is started at once *)
-Definition init_state (cf : pconf) : pstate :=
-  mkState cf false None None 0 [] [] [] OdInitial false false (c_static cf && negb (c_sod cf)) false
-          OdInitial false false false false false.
-Definition init_events (cf : pconf) : list pevent :=
-  if c_static cf && negb (c_sod cf) then [ESrcStart] else [].
+(* initialize() + the head of run(): an alwaysAvailable path creates its stream at once (the available pair is
+   opened, the offline sub-stream runs); a static source that is not on demand is started at once *)
+Definition init_base (cf : pconf) : pstate :=
+  mkState cf false None None 0 [] [] [] OdInitial false false false false
+          OdInitial false false false false false SNone.
+Definition init_m : M :=
+  whenM aa set_available ;;
+  whenM (fun s => c_static (s_conf s) && negb (c_sod (s_conf s))) handler_start.
+Definition init_state (cf : pconf) : pstate := fst (init_m (init_base cf)).
+Definition init_events (cf : pconf) : list pevent := snd (init_m (init_base cf)).
 
 Definition run_gen (fx : bool) (cf : pconf) (ops : list pop) : pstate * list pevent :=
   (final (step_gen fx) (init_state cf) ops, init_events cf ++ trace (step_gen fx) (init_state cf) ops).
